@@ -42,8 +42,8 @@ LEVEL_TEXT = (
 LEVEL_NOTE = "Trusted: SHA-1 digests of array bytes+dtype+shape+flags; scikit-learn's clone/get_params as the duplication mechanism named by the property."
 TECHNIQUE = "runtime purity monitor (argument digests before/after every tapped call) plus recorded call histories checked offline (repeat, read-only, refit-vs-fresh, clone, rejection with paired control)"
 FLOORS = {
-    "quick": {"eval:purity": 25000, "eval:repeat": 230, "eval:readonly": 230, "eval:history": 38, "eval:clone": 28, "eval:unfitted": 19,
-              "eval:rejection": 420, "eval:aliasing": 25, "distinct_nontrivial": 5000},
+    "quick": {"eval:purity": 25000, "eval:repeat": 150, "eval:readonly": 150, "eval:history": 38, "eval:clone": 28, "eval:unfitted": 19,
+              "eval:rejection": 420, "eval:aliasing": 25, "eval:stale_state": 130, "distinct_nontrivial": 5000},
     "thorough": {"eval:purity": 600000, "eval:repeat": 6000, "eval:readonly": 6000, "eval:history": 1100, "eval:clone": 750, "eval:rejection": 10000,
                  "eval:aliasing": 750, "distinct_nontrivial": 100000},
 }
@@ -53,7 +53,7 @@ CASE_TIMEOUT_S = 300
 
 def plan(tier):
     if tier == "quick":
-        return collections.OrderedDict(specs=6, history=8, clone=6, unfitted=2, rejection=5, aliasing=8, borrowed=16)
+        return collections.OrderedDict(specs=4, history=8, clone=6, unfitted=2, rejection=5, aliasing=8, borrowed=12)
     return collections.OrderedDict(specs=160, history=240, clone=160, unfitted=20, rejection=120, aliasing=240, borrowed=320)
 
 
@@ -178,6 +178,37 @@ def _dataset(rng, n=None, ncomp=1, shape2d=False, weights=False):
     if wts is not None and ncomp == 1:
         wts = wts[0]
     return (east, north), data, wts
+
+
+_KEEP = {"region", "p1", "p2", "p", "center", "sizes", "spacing", "extra", "pad", "r", "x_extra"}
+
+
+def _outcome(call, args):
+    try:
+        return core.digest(call(args), flags=False)
+    except Exception as exc:  # noqa: BLE001
+        return "raised:" + type(exc).__name__
+
+
+def _reverse_in_place(args):
+    """Reverse (in C order) every ndarray with more than one element under the data-like keys; returns how many changed."""
+    count = 0
+
+    def walk(obj):
+        nonlocal count
+        if isinstance(obj, np.ndarray) and obj.size > 1 and obj.flags.writeable and obj.dtype != object:
+            flipped = obj.ravel()[::-1].copy().reshape(obj.shape)
+            if not np.array_equal(flipped, obj, equal_nan=True):
+                obj[...] = flipped
+                count += 1
+        elif isinstance(obj, (tuple, list)):
+            for item in obj:
+                walk(item)
+
+    for key, value in args.items():
+        if key not in _KEEP:
+            walk(value)
+    return count
 
 
 def _readonly(obj):
@@ -357,6 +388,18 @@ def run_case(run, tap, stream, index, rng):
                     continue
                 if third != first:
                     run.violation("readonly", "%s: result differs for read-only arguments" % name, {"spec": name, "args": args_backup}, key="readonly-diff:" + name)
+                # history-freedom of plain calls: call, change the SAME array objects in place, call again - the second result must be
+                # what a first call on fresh copies of the changed arrays returns (nothing may be remembered across calls)
+                args_live = copy.deepcopy(args_backup)
+                _outcome(call, args_live)
+                changed = _reverse_in_place(args_live)
+                if changed:
+                    after = _outcome(call, args_live)
+                    fresh = _outcome(call, copy.deepcopy(args_live))
+                    run.evaluated("stale_state")
+                    if after != fresh:
+                        run.violation("stale_state", "%s: a call on array objects that were modified in place since an earlier call differs from the same call on fresh copies (state kept across calls)" % name,
+                                      {"spec": name, "args_after_modification": args_live}, key="stale:" + name)
             run.sample("specs", {"last_spec": name, "n_args": len(args)})
         elif stream == "history":
             for scalar in (True, False):
